@@ -129,7 +129,7 @@ Qed.
 
 (* non-vacuity: the witness of C09_race_state_reachable is such a start and such a state *)
 Example known_race_instance :
-  tops_ok race_init /\ known_C09 (race_key ParseFast Purge FHostLastSeen) = true.
+  tops_ok race_init /\ known_C09 (race_key SessClose SessClose FSessClosed) = true.
 Proof.
   split; [|vm_compute; reflexivity].
   intros i j ti tj Hne Hi Hj.
